@@ -188,6 +188,23 @@ type State struct {
 	Heap map[string]Term // region -> current term
 	NA   Term            // allocation counter
 	Gh   map[string]Term // ghost scalars
+	// Track, when set, makes region() return formal parameters named after the
+	// regions instead of heap versions and records which regions were read: this
+	// is how the body of a recursive spec function is abstracted over the heap.
+	Track *regionTracker
+}
+
+type regionTracker struct {
+	names []string // in order of first use
+	seen  map[string]bool
+}
+
+func (t *regionTracker) formal(name string) Term {
+	if !t.seen[name] {
+		t.seen[name] = true
+		t.names = append(t.names, name)
+	}
+	return sym("rf:" + name)
 }
 
 func (st *State) clone() *State {
